@@ -116,7 +116,11 @@ StrTable == <<  \* [val |-> bytes of the string, sp |-> one legal spelling]
     [val |-> <<169, 32, 49, 57, 57, 48>>, sp |-> <<40, 92, 50, 53, 49, 32, 49, 57, 57, 48, 41>>],
     [val |-> <<76, 49, 10, 76, 50>>, sp |-> <<40, 76, 49, 92, 110, 76, 50, 41>>],
     [val |-> <<120, 13, 121>>, sp |-> <<40, 120, 92, 114, 121, 41>>],
-    [val |-> <<37, 33, 47, 123>>, sp |-> <<60, 50, 53, 50, 49, 50, 70, 55, 66, 62>>] >>
+    [val |-> <<37, 33, 47, 123>>, sp |-> <<60, 50, 53, 50, 49, 50, 70, 55, 66, 62>>],
+    \* short octal escapes followed by the digits 8 and 9, and by an octal digit: (\119 \08 \1234)
+    [val |-> <<9, 57, 32, 0, 56, 32, 83, 52>>, sp |-> <<40, 92, 49, 49, 57, 32, 92, 48, 56, 32, 92, 49, 50, 51, 52, 41>>],
+    \* a line continuation, an unknown escape (the backslash is dropped), CR LF inside the string read as one LF
+    [val |-> <<97, 98, 113, 10, 99>>, sp |-> <<40, 97, 92, 10, 98, 92, 113, 13, 10, 99, 41>>] >>
 Dates == {"none", "iso", "ctime", "rfc", "short"}
 Variants == {[bs |-> bs, bshift |-> sh, bfuzz |-> fz, fb |-> fb, std |-> sd, other |-> ot, ia |-> ia, fixed |-> fx, str |-> st, date |-> dt] :
                 bs \in {"omit", "50000", "39625"}, sh \in {"omit", "7", "3"}, fz \in {"omit", "1", "0"},
